@@ -112,3 +112,53 @@ Proof.
     apply lookup_decl_in in L2. destruct (proj2 (H nm k) (ex_intro _ f L2)) as [f1 H1].
     rewrite (lookup_decl_some t1 nm k f1 N1 H1) in L1. discriminate.
 Qed.
+
+(* ---- the recursion fuel of the metavariable parser is never the reason it stops ---- *)
+Lemma tl_length {A} (l : list A) : List.length (tl l) = (List.length l - 1)%nat.
+Proof. destruct l; simpl; lia. Qed.
+
+Lemma cur_ident_nonempty ts eof : t_kind (cur ts eof) = TIdent -> ts <> [].
+Proof. destruct ts; simpl; [discriminate|congruence]. Qed.
+
+Lemma parse_names_fuel eof : forall f1 f2 ts,
+  (List.length ts < f1)%nat -> (List.length ts < f2)%nat -> parse_names f1 ts eof = parse_names f2 ts eof.
+Proof.
+  induction f1 as [|f1 IH]; intros f2 ts H1 H2; [lia|]. destruct f2 as [|f2]; [lia|].
+  cbn [parse_names]. destruct (t_kind (cur ts eof)) eqn:K; try reflexivity.
+  destruct (t_kind (cur (tl ts) eof)) eqn:K2; try reflexivity.
+  assert (ts <> []) as Hne by (eapply cur_ident_nonempty; eauto).
+  rewrite (IH f2 (tl (tl ts))); [reflexivity| |]; rewrite !tl_length; destruct ts; simpl in *; try congruence; lia.
+Qed.
+
+Lemma parse_names_rest eof : forall f ts ns r,
+  parse_names f ts eof = inl (ns, r) -> (List.length r < List.length ts)%nat.
+Proof.
+  induction f as [|f IH]; intros ts ns r H; [discriminate|]. cbn [parse_names] in H.
+  destruct (t_kind (cur ts eof)) eqn:K; try discriminate.
+  assert (ts <> []) as Hne by (eapply cur_ident_nonempty; eauto).
+  destruct (t_kind (cur (tl ts) eof)) eqn:K2;
+    try (inversion H; subst; rewrite tl_length; destruct ts; simpl in *; [congruence|lia]).
+  destruct (parse_names f (tl (tl ts)) eof) as [[ns' r']|e] eqn:P; [|discriminate].
+  inversion H; subst. apply IH in P. rewrite !tl_length in P. destruct ts; simpl in *; [congruence|lia].
+Qed.
+
+Lemma parse_decl_rest ts eof d r : parse_decl ts eof = inl (d, r) -> (List.length r < List.length ts)%nat.
+Proof.
+  unfold parse_decl. destruct (t_kind (cur ts eof)) eqn:K; try discriminate.
+  destruct (parse_names _ (tl ts) eof) as [[ns r0]|e] eqn:P; [|discriminate].
+  apply parse_names_rest in P. rewrite tl_length in P.
+  destruct (t_kind (cur r0 eof)); try discriminate.
+  destruct (t_kind (cur (tl r0) eof)); try discriminate.
+  intros H. inversion H; subst. rewrite !tl_length. lia.
+Qed.
+
+(* parse_meta with any fuel above the number of tokens gives the same result: the fuel case
+   [O => ([], [])] is never what ends the parse *)
+Theorem parse_meta_fuel eof : forall f1 f2 ts,
+  (List.length ts < f1)%nat -> (List.length ts < f2)%nat -> parse_meta f1 ts eof = parse_meta f2 ts eof.
+Proof.
+  induction f1 as [|f1 IH]; intros f2 ts H1 H2; [lia|]. destruct f2 as [|f2]; [lia|].
+  cbn [parse_meta]. destruct (t_kind (cur ts eof)); try reflexivity;
+    (destruct (parse_decl ts eof) as [[d r]|e] eqn:P; [|reflexivity];
+     apply parse_decl_rest in P; rewrite (IH f2 r); [reflexivity|lia|lia]).
+Qed.
